@@ -39,8 +39,7 @@ JOBS += [
          cbmc_flags=UNW, expect_kinds=['postcondition'], timeout=900),
 ] + rank_cases(dict(name='positionInData', bodies=ND_BODIES + ['positionInData'], enforce=['positionInData'], replace=ND_REPL, cbmc_flags=UNW,
                     expect_kinds=['postcondition'], timeout=600)) + \
-    rank_cases(dict(split=True, split_workers=3, name='positionAndExtentInData', bodies=ND_BODIES + ['NDSize_isub_scalar', 'positionAndExtentInData'], enforce=['positionAndExtentInData'],
-                    replace=ND_REPL + ['positionInData'], cbmc_flags=UNW, expect_kinds=['postcondition', 'precondition'], timeout=600))
+    []   # positionAndExtentInData: contract written (dv.h) but the job does not terminate within 20 min even for rank 2; not claimed
 SPEC = dict(
     contracts=['nd.h', 'dv.h'], stubs=['dataarray.h'], include_order=['nd.h', 'dataarray.h', 'dv.h'], units=UNITS, jobs=JOBS,
     trusted_base=['CBMC 6.11.0 (C front end, --dfcc contract instrumentation, SAT back end)',
